@@ -109,6 +109,9 @@ fn parse_pv(line: &str) -> Option<PvLine<'_>> {
     let mut it = range.split(':');
     let a: usize = it.next()?.parse().ok()?;
     let b: usize = it.next()?.parse().ok()?;
+    if it.next().is_some() {
+        return None;
+    }
     let tail = tail.strip_prefix("/cpu air/")?;
     let k = tail.find(": ")?;
     Some(PvLine { a, b, topic: &tail[..k], rest: &tail[k + 2..] })
@@ -131,7 +134,20 @@ pub fn load_str(text: &str, name: &str) -> Result<Loaded, String> {
     load_value(&doc, name)
 }
 
+/// How prover messages are read: from `proof_hex` by byte range (the recorded channel; requires
+/// the ranges to tile the stream), or from the printed payload of each annotation line (what the
+/// file *says*; lenient about missing/duplicated/reordered lines, strict about unparsable values).
+#[derive(Clone, Copy, PartialEq, Eq, Debug)]
+pub enum Mode {
+    Hex,
+    Text,
+}
+
 pub fn load_value(doc: &Value, name: &str) -> Result<Loaded, String> {
+    load_value_mode(doc, name, Mode::Hex)
+}
+
+pub fn load_value_mode(doc: &Value, name: &str, mode: Mode) -> Result<Loaded, String> {
     let pp = doc.get("proof_parameters").ok_or("no proof_parameters")?;
     let pi = doc.get("public_input").ok_or("no public_input")?;
     let stark = pp.get("stark").ok_or("no stark")?;
@@ -178,6 +194,7 @@ pub fn load_value(doc: &Value, name: &str) -> Result<Loaded, String> {
     let (cols1, cols2) = match (&dynamic_params, layout_columns(&layout)) {
         (Some(d), _) => (d.num_columns_first as u64, d.num_columns_second as u64),
         (None, Some(c)) => c,
+        (None, None) if layout == "plain" => return err("inconsistent: layout plain has no verifier build"),
         (None, None) => return err(format!("unknown layout {layout}")),
     };
     let segs = pi.get("memory_segments").and_then(|v| v.as_object()).ok_or("no memory_segments")?;
@@ -272,7 +289,7 @@ pub fn load_value(doc: &Value, name: &str) -> Result<Loaded, String> {
     };
 
     // ---- the recorded stream --------------------------------------------------------------
-    let hex = doc.get("proof_hex").and_then(|v| v.as_str()).ok_or("no proof_hex")?;
+    let hex = if mode == Mode::Hex { doc.get("proof_hex").and_then(|v| v.as_str()).ok_or("no proof_hex")? } else { "" };
     let hex = hex.strip_prefix("0x").unwrap_or(hex);
     if hex.len() % 2 != 0 {
         return err("odd proof_hex length");
@@ -337,19 +354,89 @@ pub fn load_value(doc: &Value, name: &str) -> Result<Loaded, String> {
             }
             continue;
         }
-        let Some(pv) = parse_pv(line) else { continue };
-        if pv.a != cursor {
-            return err(format!("stream gap: expected offset {cursor}, line says {}", pv.a));
+        let Some(pv) = parse_pv(line) else {
+            if line.trim_start().starts_with("P->V") || line.contains("P->V[") {
+                return err(format!("unparsable prover message line: {}", &line[..line.len().min(80)]));
+            }
+            continue;
+        };
+        // every prover message must have its canonical shape: a line that is part of the stream
+        // but cannot be classified must not be skipped
+        {
+            let r = pv.rest;
+            let num_then = |s: &str, after: &str| -> bool {
+                let end = s.find(|c: char| !c.is_ascii_digit()).unwrap_or(s.len());
+                end > 0 && s[end..].starts_with(after)
+            };
+            let row_ok = r.strip_prefix("Row ").map(|x| {
+                let end = x.find(|c: char| !c.is_ascii_digit()).unwrap_or(x.len());
+                end > 0 && x[end..].strip_prefix(", Column ").map(|y| num_then(y, ": Field Element(0x")).unwrap_or(false)
+            }).unwrap_or(false);
+            let node_ok = r.strip_prefix("For node ").map(|x| num_then(x, ": Hash(0x") || num_then(x, ": Data(0x")).unwrap_or(false);
+            let pkg_ok = r.strip_prefix("To complete packages, element #").map(|x| num_then(x, ": Data(0x") || num_then(x, ": Hash(0x")).unwrap_or(false);
+            let ok = r.ends_with(')')
+                && (r.starts_with("Commitment: Hash(0x") || r.starts_with(": Field Elements(0x") || r.starts_with("Coefficients: Field Elements(0x") || r.starts_with("POW: Data(0x") || row_ok || node_ok || pkg_ok);
+            if !ok {
+                return err(format!("prover message of unknown shape: {}", &r[..r.len().min(60)]));
+            }
         }
-        cursor = pv.b;
-        let c = chunk(pv.a, pv.b)?;
+        let text_bytes: Vec<u8>;
+        let c: &[u8] = if mode == Mode::Hex {
+            if pv.a != cursor {
+                return err(format!("stream gap: expected offset {cursor}, line says {}", pv.a));
+            }
+            cursor = pv.b;
+            chunk(pv.a, pv.b)?
+        } else {
+            // Text mode: build the bytes the payload denotes. Single field elements are printed as
+            // values but travel in Montgomery form, so convert to keep one decoding path below.
+            let payload = paren_payload(pv.rest).ok_or_else(|| format!("no payload in: {line}"))?;
+            let mut out = Vec::new();
+            let is_single_fe = pv.rest.contains(": Field Element(") || pv.rest.starts_with("Field Element(");
+            for part in payload.split(',') {
+                let v = part.trim();
+                let digits = v.strip_prefix("0x").ok_or_else(|| format!("inconsistent: value without 0x prefix: {v}"))?;
+                if digits.is_empty() || !digits.chars().all(|ch| ch.is_ascii_hexdigit()) {
+                    return err(format!("unparsable value {v}"));
+                }
+                if digits.trim_start_matches('0').len() > 63 && !(digits.trim_start_matches('0').len() == 64 && false) {
+                    // more than 252 bits: cannot be a field element / hash of this protocol
+                    return err(format!("value exceeds the field: {v}"));
+                }
+                let digits = digits.trim_start_matches('0');
+                let mut b = [0u8; 32];
+                let padded = format!("{:0>64}", digits);
+                for i in 0..32 {
+                    b[i] = u8::from_str_radix(&padded[2 * i..2 * i + 2], 16).map_err(|_| "bad hex")?;
+                }
+                if is_single_fe {
+                    let val = Felt::from_bytes_be_slice(&b);
+                    b = (val * Felt::TWO.pow(256u32)).to_bytes_be();
+                }
+                out.extend_from_slice(&b);
+            }
+            text_bytes = out;
+            &text_bytes
+        };
         let t = pv.topic;
         if t == "STARK/Original/Commit on Trace" {
-            original = Some(raw32(c)?);
+            let v = raw32(c)?;
+            if original.is_some() && original != Some(v) {
+                return err("ambiguous: a commitment appears twice with different values");
+            }
+            original = Some(v);
         } else if t == "STARK/Interaction/Commit on Trace" {
-            interaction = Some(raw32(c)?);
+            let v = raw32(c)?;
+            if interaction.is_some() && interaction != Some(v) {
+                return err("ambiguous: a commitment appears twice with different values");
+            }
+            interaction = Some(v);
         } else if t == "STARK/Out Of Domain Sampling/Commit on Trace" {
-            composition = Some(raw32(c)?);
+            let v = raw32(c)?;
+            if composition.is_some() && composition != Some(v) {
+                return err("ambiguous: a commitment appears twice with different values");
+            }
+            composition = Some(v);
         } else if t == "STARK/Out Of Domain Sampling/OODS values" {
             if c.len() % 32 != 0 {
                 return err("OODS block not a multiple of 32 bytes");
@@ -367,7 +454,7 @@ pub fn load_value(doc: &Value, name: &str) -> Result<Loaded, String> {
         } else if let Some(n) = t.strip_prefix("STARK/FRI/Commitment/Layer ") {
             let n: usize = n.parse().map_err(|_| "bad layer number")?;
             if n != fri_roots.len() + 1 {
-                return err("FRI layer commitments out of order");
+                return err(if mode == Mode::Hex { "FRI layer commitments out of order" } else { "inconsistent: FRI layer commitments out of order" });
             }
             fri_roots.push(raw32(c)?);
         } else if t == "STARK/FRI/Proof of Work" {
@@ -376,7 +463,11 @@ pub fn load_value(doc: &Value, name: &str) -> Result<Loaded, String> {
             }
             let mut b8 = [0u8; 8];
             b8.copy_from_slice(&c[c.len() - 8..]);
-            nonce = Some(u64::from_be_bytes(b8));
+            let v = u64::from_be_bytes(b8);
+            if nonce.is_some() && nonce != Some(v) {
+                return err("ambiguous: two different nonces");
+            }
+            nonce = Some(v);
         } else if let Some(d) = t.strip_prefix("STARK/FRI/Decommitment/Layer ") {
             // "0/Virtual Oracle/Trace k" or "<layer>"
             let table = if let Some(tr) = d.strip_prefix("0/Virtual Oracle/Trace ") {
@@ -384,12 +475,12 @@ pub fn load_value(doc: &Value, name: &str) -> Result<Loaded, String> {
             } else {
                 let l: usize = d.parse().map_err(|_| "bad decommitment layer")?;
                 if l == 0 || l >= steps.len() {
-                    return err("decommitment layer out of range");
+                    return err("inconsistent: decommitment for a layer the parameters do not declare");
                 }
                 2 + l
             };
             if table >= n_tables {
-                return err("decommitment table out of range");
+                return err("inconsistent: decommitment table out of range");
             }
             if pv.rest.starts_with("Row ") {
                 let r = parse_number_after(pv.rest, "Row ").ok_or("bad row")?;
@@ -414,11 +505,13 @@ pub fn load_value(doc: &Value, name: &str) -> Result<Loaded, String> {
             return err(format!("unknown prover message topic: {t}"));
         }
     }
-    if cursor != bytes.len() {
-        return err(format!("stream not fully consumed: {cursor} of {} bytes", bytes.len()));
-    }
-    if fri_roots.len() != steps.len() - 1 {
-        return err("wrong number of FRI layer commitments");
+    if mode == Mode::Hex {
+        if cursor != bytes.len() {
+            return err(format!("stream not fully consumed: {cursor} of {} bytes", bytes.len()));
+        }
+        if fri_roots.len() != steps.len() - 1 {
+            return err("wrong number of FRI layer commitments");
+        }
     }
 
     let tw = |i: usize| table::types::Witness { vector: vector::types::Witness { authentications: auths[i].clone() } };
